@@ -110,6 +110,14 @@ def mon_c04(sim):
         elif pos != len(data) and not ep.closed():
             # a partially written message is only acceptable while the pump has not finished
             pass
+        elif pos != len(data) and ep.closed() and not getattr(ep, 'user_closed', False):
+            # the endpoint closed on its own decision (`_check_sess_term` from a TX/RX/idle callback, not a user
+            # close and not the peer hanging up): everything it had queued must have been written out whole
+            how = next((ev['e'] for (who, ev, obs) in sim.log if who == ep.name and obs.get('closed')), None)
+            if how in ('pump', 'rx', 'pq'):
+                bad.append(('C04:wire-ends-inside-a-message',
+                            '%s closed the connection by itself (in a %s callback) with %d octets of its last message unwritten'
+                            % (ep.name, how, len(data) - pos)))
     for ep in sim.eps():
         peer = sim.peer(ep)
         fr = frames[ep.name]
